@@ -459,11 +459,17 @@ func C16(ctx *core.Ctx) {
 						odd = r.IPos(in) + ": " + st.String()
 					}
 				})
-				// reflection on the results after the call (Value.IsNil & co. panic for value kinds)
-				for _, c := range ssax.Calls(cl) {
-					switch c.FullName() {
-					case "(reflect.Value).IsNil", "(reflect.Value).Elem", "(reflect.Value).Pointer":
-						odd = r.IPos(c.Instr) + ": " + c.FullName() + " on a result"
+				// reflection on the results after the call (Value.IsNil & co. panic for value kinds,
+				// and a "nil" test rewrites typed nils) — in the handler or in helpers it converts with
+				for _, g := range localCone(cl, 2) {
+					if g != cl && (g.Object() == nil || g.Object().Exported()) {
+						continue
+					}
+					for _, c := range ssax.Calls(g) {
+						switch c.FullName() {
+						case "(reflect.Value).IsNil", "(reflect.Value).Elem", "(reflect.Value).Pointer", "(reflect.Value).IsZero", "(reflect.Value).Kind":
+							odd = r.IPos(c.Instr) + ": " + c.FullName() + " on a result"
+						}
 					}
 				}
 				ctx.Check(odd == "", "C16.R6", ssax.Name(cl)+" › results are handed on exactly as the handler returned them", fnPos(r, cl), "results[i] = returnValues[i].Interface() and nothing else",
